@@ -2,7 +2,8 @@
    Cost arithmetic is in unbounded Z: the theorems are about histories in which the accounted costs do not
    overflow int64 (Σ costs < 2^63); outside that regime the code's `used + cost` wraps. *)
 From stdpp Require Import gmap.
-From Ristretto Require Import Base.Word Cache.Policy Cache.PolicyProofs Cache.Store Cache.Machine Cache.MachineProofs.
+From Ristretto Require Import Base.Word Cache.Policy Cache.PolicyProofs Cache.Store Cache.Machine Cache.MachineProofs
+  Cache.CapProofs.
 Local Open Scope Z_scope.
 
 (* In every reachable state of the cache machine — every number of client threads, every interleaving with the
@@ -33,6 +34,27 @@ Theorem C03_nonneg_add : forall orders est p m key cost vs added p' m' rounds re
   0 <= pol_cap p'.
 Proof. exact pol_add_cap_nonneg. Qed.
 
+(* The history form.  A run is calm (CapProofs.calm_run) when no step lowers MaxCost, none raises the accounted cost of
+   a key that stays accounted (whichever way: an applied overwrite, a second buffered insert of an accounted key, a
+   Config.Cost that returns more) and no accounted cost is negative.  At every point of a calm run - drained or not,
+   since the accounting only changes inside the policy lock - RemainingCost() >= 0. *)
+Theorem C03_remaining_nonneg : forall c maxCost bdur now mon pre post, 0 <= maxCost ->
+  calm_run c (init_state maxCost bdur now mon) (pre ++ post) ->
+  0 <= pol_cap (s_pol (mrun c (init_state maxCost bdur now mon) pre)).
+Proof. exact remaining_nonneg. Qed.
+
+(* the exclusion is necessary: one applied overwrite that raises a resident key's cost takes RemainingCost() to -50 *)
+Theorem C03_raise_goes_negative :
+  pol_cap (s_pol (mrun cap_cfg (init_state 100 5 1000 true) cap_sched_raise)) = -50.
+Proof. exact raise_goes_negative. Qed.
+
+(* non-vacuity of the calm hypothesis: a run with an admission, a cheaper overwrite and an eviction on behalf of a
+   newcomer *)
+Example C03_calm_nonvacuous :
+  calm_run cap_cfg (init_state 100 5 1000 true) cap_sched_calm /\
+  map_to_list (p_costs (s_pol (mrun cap_cfg (init_state 100 5 1000 true) cap_sched_calm))) = [(8%N, 70)].
+Proof. exact calm_example. Qed.
+
 Example C03_nonvacuous :
   exists p' m' rounds rej, pol_add [] (fun _ => 0) (pol_insert (pol_insert (pol_new 100) 1 60) 2 30) (m_zero true) 3 40
      = AddOk [(1%N, 60)] true p' m' rounds rej /\ pol_cap p' = 30 /\ pol_ok p'.
@@ -41,3 +63,5 @@ Proof. vm_compute. eexists _, _, _, _. split; [reflexivity|]. split; reflexivity
 Print Assumptions C03_accounting.
 Print Assumptions C03_add_bounded.
 Print Assumptions C03_nonneg_add.
+Print Assumptions C03_remaining_nonneg.
+Print Assumptions C03_raise_goes_negative.
